@@ -484,44 +484,127 @@ def path_roots(p):
 
 
 class GuardRule(FactRule):
-    """Facts established by branch edges (patterns over normalised comparisons),
-    killed by assignments to the paths they mention; obligations at calls and at
-    assignments to named fields.
+    """Comparison facts established by branch edges, killed by assignments to
+    the paths they mention; obligations at calls and at stores to named fields.
 
-    patterns: list of (name, fn(op, lp, rp, l, r, rule, ctx) -> bool) evaluated on every edge with the
-              comparison that holds on it (both operand orders are tried).
-    call_req: {callee name: [fact names]}
-    assign_req: list of (field name, value predicate(rhs, ctx) -> bool, [fact names])
+    Raw facts ('c', op, left, right) are recorded for every edge whose atom
+    mentions a name of the rule's vocabulary; operands are access-path strings
+    (constants are '#<value>', calls are 'name(arg,arg,...)').  Named guards are
+    evaluated lazily over the raw facts, so a guard established inside a small
+    static helper of the same unit is seen too: such helpers are inlined with
+    their formals bound to the actual argument paths, their locals prefixed
+    with '<helper>::', and the returned local renamed to the variable the call
+    result is assigned to.
+
+    patterns: list of (name, fn(op, lp, rp) -> bool)   (both operand orders are tried)
+    vocab:    names (fields, variables, callees) that make an edge worth recording
+    call_req: {callee name: [guard names]}
+    assign_req: list of (field name, value predicate(rhs, ctx) -> bool, [guard names])
     """
     name = 'R2.guard'
+    interprocedural = True
+    max_inline_depth = 2
 
-    def __init__(self, prog, fn, patterns, call_req=None, assign_req=None):
+    def __init__(self, prog, fn, patterns, call_req=None, assign_req=None, vocab=(), inline=True):
         FactRule.__init__(self, prog, fn)
         self.patterns = patterns
         self.call_req = call_req or {}
         self.assign_req = assign_req or []
+        self.vocab = set(vocab)
+        self.inline = inline
         self.checked = 0
+        self._subst = {}
+
+    # ---- naming
+    def binding(self, ts):
+        for it in ts:
+            if isinstance(it, tuple) and it and it[0] == 'bind':
+                return it
+        return None
+
+    def rename(self, path, ctx, ts):
+        """Translate a path of the function being executed into the root
+        function's vocabulary."""
+        if ctx.fn is self.fn:
+            return path
+        b = self.binding(ts)
+        import re
+        m = re.match(r'^([*&]*)([A-Za-z_][A-Za-z0-9_]*)(.*)$', path)
+        if not m or b is None:
+            return path
+        pre, root, rest = m.groups()
+        bind = dict(b[2])
+        if root in bind:
+            tgt = bind[root]
+            if rest.startswith('->') and tgt.startswith('&'):
+                return pre + tgt[1:] + '.' + rest[2:]
+            return pre + tgt + rest
+        locs = set(v.op for v in ctx.fn.locals.values()) | set(p.op for p in ctx.fn.params)
+        if root in locs:
+            return pre + ctx.fn.name + '::' + root + rest
+        return path
+
+    def operand(self, e, ctx, ts):
+        se = strip(e)
+        cv = const_value(se) if se is not None else None
+        if cv is not None:
+            return '#%d' % cv
+        if se is not None and se.k == 'null':
+            return '#0'
+        sub = self.subst if ctx.fn is self.fn else self._subst.setdefault(ctx.fn.qname, unique_defs(ctx.fn))
+        if se is not None and se.k == 'call':
+            return '%s(%s)' % (call_name(se), ','.join(self.operand(a, ctx, ts) for a in se.a[1:]))
+        return self.rename(pstr(e, sub), ctx, ts)
+
+    def P(self, e, ctx=None, ts=frozenset()):
+        if ctx is None or ctx.fn is self.fn:
+            return pstr(e, self.subst)
+        return self.operand(e, ctx, ts)
+
+    # ---- facts
+    def raw(self, ts):
+        return [it for it in ts if isinstance(it, tuple) and it and it[0] == 'c']
 
     def have(self, ts):
-        return set(it[1] for it in ts if isinstance(it, tuple) and it and it[0] == 'g')
+        out = set(it[1] for it in ts if isinstance(it, tuple) and it and it[0] == 'g')
+        raws = self.raw(ts)
+        for name, fn in self.patterns:
+            for _, op, lp, rp in raws:
+                try:
+                    if fn(op, lp, rp) or fn(CMP_FLIP[op], rp, lp):
+                        out.add(name)
+                        break
+                except (AttributeError, IndexError, TypeError):
+                    pass
+        return out
 
     def add_fact(self, ts, name, paths):
         return ts | frozenset([('g', name, frozenset(paths))])
 
+    def interesting(self, atom):
+        if not self.vocab:
+            return True
+        for n in walk(atom):
+            if n.k == 'mem' and n.op in self.vocab:
+                return True
+            if n.k == 'var' and n.op in self.vocab:
+                return True
+        a = strip_transparent(atom)
+        return a.k in ('var', 'call')
+
     def on_edge(self, ctx, node, label, refined, ts):
-        if ctx.fn is not self.fn:
+        if ctx.fn is not self.fn and not self.binding(ts):
             return ts
-        op, l, r = atom_cmp(node.e, label)
-        lp, rp = self.P(l), self.P(r)
-        for name, fn in self.patterns:
-            try:
-                if fn(op, lp, rp, l, r, self, ctx):
-                    ts = self.add_fact(ts, name, (lp, rp))
-                elif fn(CMP_FLIP[op], rp, lp, r, l, self, ctx):
-                    ts = self.add_fact(ts, name, (lp, rp))
-            except (AttributeError, IndexError, TypeError):
-                pass
-        return self.guard_edge(ctx, node, label, refined, ts)
+        if self.interesting(node.e):
+            op, l, r = atom_cmp(node.e, label)
+            ts = ts | frozenset([('c', op, self.operand(l, ctx, ts), self.operand(r, ctx, ts))])
+            # (v = f(...)) != 0 style atoms: also record for the assigned variable
+            sl = strip_transparent(l)
+            if sl.k == 'bin' and sl.op == '=':
+                ts = ts | frozenset([('c', op, self.operand(sl.a[0], ctx, ts), self.operand(r, ctx, ts))])
+        if ctx.fn is self.fn:
+            return self.guard_edge(ctx, node, label, refined, ts)
+        return ts
 
     def guard_edge(self, ctx, node, label, refined, ts):
         return ts
@@ -530,10 +613,14 @@ class GuardRule(FactRule):
         out = []
         for it in ts:
             if isinstance(it, tuple) and it and it[0] == 'g':
+                if any(path in path_roots(p) for p in it[2]):
+                    continue
+            elif isinstance(it, tuple) and it and it[0] == 'c':
                 dead = False
-                for p in it[2]:
-                    if path in path_roots(p):
-                        dead = True
+                for p in it[2:4]:
+                    for q in operand_paths(p):
+                        if path in path_roots(q):
+                            dead = True
                 if dead:
                     continue
             out.append(it)
@@ -541,6 +628,8 @@ class GuardRule(FactRule):
 
     def on_assign(self, ctx, lhs, rhs, op, value, ts):
         if ctx.fn is not self.fn:
+            if self.binding(ts):
+                ts = self.kill(ts, self.operand(lhs, ctx, ts))
             return ts
         f = last_field(lhs)
         for field, pred, req in self.assign_req:
@@ -549,10 +638,19 @@ class GuardRule(FactRule):
                 missing = [x for x in req if x not in self.have(ts)]
                 if missing:
                     self.violate(ctx, 'unguarded-store', '%s %s %s without the guard(s): %s' % (
-                        self.P(lhs), op, show(rhs) if rhs is not None else '', ', '.join(missing)),
+                        pstr(lhs, self.subst), op, show(rhs) if rhs is not None else '', ', '.join(missing)),
                         inst='%s:%s' % (field, ','.join(missing)))
-        ts = self.kill(ts, self.P(lhs))
+        lp = pstr(lhs, self.subst)
+        ts = self.kill(ts, lp)
+        # result of an inlined helper: facts about its returned local now speak about lhs
+        if rhs is not None and op == '=' and strip(rhs).k == 'call':
+            ts = frozenset(self.rename_fact(it, '$ret', lp) for it in ts)
         return self.guard_assign(ctx, lhs, rhs, op, ts)
+
+    def rename_fact(self, it, old, new):
+        if isinstance(it, tuple) and it and it[0] == 'c':
+            return ('c', it[1], rename_root(it[2], old, new), rename_root(it[3], old, new))
+        return it
 
     def guard_assign(self, ctx, lhs, rhs, op, ts):
         return ts
@@ -561,21 +659,104 @@ class GuardRule(FactRule):
         if ctx.fn is not self.fn:
             return ts
         n = call_name(call)
+        # facts about a previous, unassigned helper result do not survive the next call
+        ts = frozenset(it for it in ts if not (isinstance(it, tuple) and it and it[0] == 'c' and
+                                               ('$ret' in it[2] or '$ret' in it[3])))
         if n in self.call_req:
             self.checked += 1
             missing = [x for x in self.call_req[n] if x not in self.have(ts)]
             if missing:
                 self.violate(ctx, 'unguarded-call', '%s() reachable without the guard(s): %s' % (n, ', '.join(missing)),
                              inst='%s:%s' % (n, ','.join(missing)))
-        # a local passed by address may be rewritten by the callee
         for a in call.a[1:]:
             sa = strip(a)
             if sa is not None and sa.k == 'un' and sa.op == '&':
-                ts = self.kill(ts, self.P(sa.a[0]))
+                ts = self.kill(ts, pstr(sa.a[0], self.subst))
         return self.guard_call(ctx, call, ts)
 
     def guard_call(self, ctx, call, ts):
         return ts
+
+    # ---- selective inlining of small static helpers
+    def should_inline(self, ctx, call, target):
+        if not self.inline or not target.static or target.unit != self.fn.unit:
+            return False
+        if target.name in self.call_req or target is self.fn:
+            return False
+        depth = 0
+        b = None
+        return len(ctx.engine.stack) <= self.max_inline_depth
+
+    def summarise(self, ctx, call, target, ts):
+        if self.should_inline(ctx, call, target) and (ctx.fn is self.fn or self.binding(ts)):
+            return None
+        return set([(ts, ctx.engine.plain_masks(target))])
+
+    def enter_callee(self, ctx, call, target, ts):
+        bind = {}
+        for p, a in zip(target.params, call.a[1:]):
+            bind[p.op] = self.operand(a, ctx, ts)
+        old = self.binding(ts)
+        ts2 = frozenset(it for it in ts if not (isinstance(it, tuple) and it and it[0] == 'bind'))
+        return ts2 | frozenset([('bind', target.qname, tuple(sorted(bind.items())), old)])
+
+    def on_return(self, ctx, node, mask, ts):
+        if ctx.fn is not self.fn and self.binding(ts) and node.e is not None:
+            rv = strip(node.e)
+            if rv is not None and rv.k == 'var':
+                root = ctx.fn.name + '::' + rv.op
+                ts = frozenset(self.rename_fact(it, root, '$ret') for it in ts)
+            if rv is not None and (rv.k == 'null' or const_value(rv) == 0):
+                ts = ts | frozenset([('c', '==', '$ret', '#0')])
+            return ts
+        return self.guard_return(ctx, node, mask, ts)
+
+    def guard_return(self, ctx, node, mask, ts):
+        return ts
+
+    def leave_callee(self, ctx, call, target, ts_in, ts_out, mask):
+        b = self.binding(ts_out)
+        prefix = target.name + '::'
+        out = []
+        for it in ts_out:
+            if isinstance(it, tuple) and it and it[0] == 'bind':
+                continue
+            if isinstance(it, tuple) and it and it[0] == 'c' and (prefix in it[2] or prefix in it[3]):
+                continue
+            out.append(it)
+        if b is not None and b[3] is not None:
+            out.append(b[3])
+        return frozenset(out)
+
+
+def operand_paths(s):
+    """Access paths mentioned in an operand string (a path, '#const', or 'f(a,b)')."""
+    if s.startswith('#'):
+        return []
+    if '(' in s and s.endswith(')'):
+        inner = s[s.index('(') + 1:-1]
+        out = []
+        depth = 0
+        cur = ''
+        for ch in inner:
+            if ch == '(':
+                depth += 1
+            elif ch == ')':
+                depth -= 1
+            if ch == ',' and depth == 0:
+                out.extend(operand_paths(cur))
+                cur = ''
+            else:
+                cur += ch
+        if cur:
+            out.extend(operand_paths(cur))
+        return out
+    return [s]
+
+
+def rename_root(s, old, new):
+    import re
+    return re.sub(r'(?<![A-Za-z0-9_:$])' + re.escape(old) + r'(?![A-Za-z0-9_])', new, s)
 
 
 def macro_invocations(path, name):
